@@ -1,5 +1,5 @@
 \* two channels: 182,298 distinct / 4,136,702 generated states, depth 13, ~1.5 min with 8 idle workers
-SPECIFICATION Spec
+SPECIFICATION SpecX
 CONSTANTS
   Chans = {"c1", "c2"}
   Ids = {1, 2, 3}
@@ -15,7 +15,9 @@ CONSTANTS
   ProbeFroms <- MCProbeFroms
   ProbeNos <- MCProbeNos
   KeepRmaxVariant = FALSE
-VIEW View
-INVARIANTS TypeOK C07_Contiguous C07_CachedLogEnd C07_IndexSound C08_KeyUnique C08_IdOnce C08_FilterCovers
-PROPERTIES C07_AppendAtEnd C07_ReopenNeutral C08_DuplicateRejected
+  Pids = {}
+  ProbePids <- MCProbePids
+VIEW ViewX
+INVARIANTS TypeOK C07_Contiguous C07_CachedLogEnd C07_IndexSound C08_KeyUnique C08_IdOnce C08_FilterCovers TypeOKX C07_ExactSound
+PROPERTIES C07_AppendAtEnd C07_ReopenNeutral C08_DuplicateRejected C07_ExactAtEnd C07_ReplaceKeeps C07_ReopenNeutralX C08_DuplicateRejectedX
 CHECK_DEADLOCK FALSE
